@@ -90,6 +90,8 @@ class Ctx:
 
     def require_min(self, rid: str, n: int) -> None:
         got = self.instances.get(rid, 0)
+        if any(f.rule == rid for f in self.findings):
+            return  # the rule matched and fired: not vacuous (failing instances are reported aggregated)
         if got < n:
             raise AnalysisError(f"rule {rid}: only {got} instances matched, {n} were confirmed by hand on the reference tree (vacuous pass refused)")
 
